@@ -850,6 +850,13 @@ def _check_sim(case):
                 col.fail(f"{tag}:observe:raises:{type(exc).__name__}", f"{where}: {type(exc).__name__}: {exc}\n{ctx.source}"[:1500])
                 o.dead = True
                 continue
+            if ctx.spec["log"] and any(isinstance(x, float) and math.isfinite(x) and not (1e-6 < x < 1e6) for g_ in got for x in g_["levels"]):
+                # the iterative steady solver ended in a near-zero pseudo-solution of the multiplicative equations
+                # (absolute residual test, DESIGN.md section 12): where it stops depends on the starting values, which
+                # an object and its replayed lineage need not share to the last bit
+                o.dead = True
+                outcome.append("retired_near_zero_pseudo_solution")
+                continue
             for vi, v in enumerate(o.variants):
                 ref = shadows[i][vi].observe(ctx, want[vi], deep, deep and all(want))
                 _compare_variant(col, ctx, tag, got[vi], ref, v, f"{where} variant {vi}/{nv}\n{ctx.source}", nv == 1 or use_view)
